@@ -103,6 +103,9 @@ def gen_person(rng, layout="137"):
         per["pose_keypoints_2d"] = gen_numbers(rng, 135, pzero)
         for name, _ in LAYOUT_137[1:]:
             per[name] = []
+    if layout == "137" and rng.random() < 0.1:
+        # OpenPose found hands / a face but no body for this person: the body block is all zeros, the others are not
+        per["pose_keypoints_2d"] = [0.0] * len(per["pose_keypoints_2d"])
     if rng.random() < 0.3:
         per["pose_keypoints_3d"] = []
     if rng.random() < 0.1:                     # field order in the JSON object is irrelevant
